@@ -16,22 +16,73 @@ Proof.
 Qed.
 
 (* one-step unfolding *)
-Definition go_items (f : nat) (g : modgraph) (stack : list nat) :=
-  fix go (items : list item) : res (list ev) :=
-    match items with
-    | [] => OK []
-    | Stmt t :: r => do rest <- go r; OK (EStmt t :: rest)
-    | Inc m :: r =>
-      do here <- match g m with
-                 | Missing => OK [EMissing m]
-                 | Broken => if memn m stack then OK [ECycle m] else OK [EFatal m]
-                 | Loaded b => if memn m stack then OK [ECycle m] else resolve f g (m :: stack) b
-                 end;
-      do rest <- go r; OK (here ++ rest)
+Definition goi (f : nat) (g : modgraph) (stack : list nat) :=
+  fix goi (it : item) : res (list ev) :=
+    match it with
+    | Stmt t => OK [EStmt t]
+    | Inc m =>
+      match g m with
+      | Missing => OK [EMissing m]
+      | Broken => if memn m stack then OK [ECycle m] else OK [EFatal m]
+      | Loaded b => if memn m stack then OK [ECycle m] else resolve f g (m :: stack) b
+      end
+    | Blk b => seq_items goi b
     end.
 
-Lemma resolve_S f g stack items : resolve (S f) g stack items = go_items f g stack items.
+Lemma resolve_S f g stack items : resolve (S f) g stack items = seq_items (goi f g stack) items.
 Proof. reflexivity. Qed.
+Lemma goi_Blk f g stack b : goi f g stack (Blk b) = seq_items (goi f g stack) b.
+Proof. reflexivity. Qed.
+
+(* nested size and nested occurrence of an include *)
+Fixpoint isz (it : item) : nat :=
+  match it with
+  | Blk b => S ((fix lsz (l : list item) := match l with [] => 0 | x :: r => isz x + lsz r end) b)
+  | _ => 1
+  end.
+Definition lsz := fix lsz (l : list item) := match l with [] => 0 | x :: r => isz x + lsz r end.
+Lemma isz_Blk b : isz (Blk b) = S (lsz b).
+Proof. reflexivity. Qed.
+Lemma isz_in x l : In x l -> isz x <= lsz l.
+Proof.
+  induction l as [|y r IH]; intros H; [destruct H|]. cbn [lsz]. fold lsz.
+  destruct H as [->|H]; [lia | specialize (IH H); lia].
+Qed.
+
+Fixpoint occ (m : nat) (it : item) : bool :=
+  match it with
+  | Inc t => Nat.eqb t m
+  | Blk b => existsb (occ m) b
+  | Stmt _ => false
+  end.
+
+(* generic facts about the sequencing of one list *)
+Lemma seq_ok h l : (forall x, In x l -> exists e, h x = OK e) -> exists evs, seq_items h l = OK evs.
+Proof.
+  induction l as [|x r IH]; intros H; cbn; [eauto|].
+  destruct (H x (or_introl eq_refl)) as [e He]. rewrite He. cbn.
+  destruct IH as [c Hc]; [intros y Hy; apply H; right; exact Hy|]. rewrite Hc. cbn. eauto.
+Qed.
+
+Lemma seq_mono (h h' : item -> res (list ev)) l evs :
+  (forall x e, In x l -> h x = OK e -> h' x = OK e) ->
+  seq_items h l = OK evs -> seq_items h' l = OK evs.
+Proof.
+  revert evs. induction l as [|x r IH]; intros evs H Hs; cbn in *; [exact Hs|].
+  apply bind_ok in Hs. destruct Hs as [a [Ha Hk]]. apply bind_ok in Hk. destruct Hk as [c [Hc Hk]].
+  rewrite (H x a (or_introl eq_refl) Ha). cbn.
+  rewrite (IH c (fun y e Hy => H y e (or_intror Hy)) Hc). cbn. exact Hk.
+Qed.
+
+Lemma seq_in h l evs x :
+  seq_items h l = OK evs -> In x l -> exists e, h x = OK e /\ incl e evs.
+Proof.
+  revert evs. induction l as [|y r IH]; intros evs Hs Hin; [destruct Hin|]. cbn in Hs.
+  apply bind_ok in Hs. destruct Hs as [a [Ha Hk]]. apply bind_ok in Hk. destruct Hk as [c [Hc Hk]].
+  inversion Hk; subst. destruct Hin as [->|Hin].
+  - exists a. split; [exact Ha | apply incl_appl, incl_refl].
+  - destruct (IH c Hc Hin) as [e [He Hi]]. exists e. split; [exact He | apply incl_appr; exact Hi].
+Qed.
 
 Section Total.
 Variable g : modgraph.
@@ -47,23 +98,21 @@ Lemma resolve_ok :
 Proof.
   induction fuel as [|f IH]; intros stack items ND INC LT; [lia|].
   rewrite resolve_S.
-  induction items as [|it r IHr]; cbn [go_items].
-  - eauto.
-  - destruct IHr as [rest Hrest].
-    destruct it as [t|m].
-    + fold (go_items f g stack). rewrite Hrest. cbn. eauto.
-    + fold (go_items f g stack). rewrite Hrest.
-      destruct (g m) eqn:Gm.
-      * cbn. eauto.
-      * destruct (memn m stack); cbn; eauto.
-      * destruct (memn m stack) eqn:Mm; [cbn; eauto|].
-        apply memn_false in Mm.
-        assert (Hin : In m mods) by (apply mods_complete; congruence).
-        assert (ND' : NoDup (m :: stack)) by (constructor; assumption).
-        assert (INC' : incl (m :: stack) mods) by (intros x [->|Hx]; auto).
-        pose proof (NoDup_incl_length ND' INC') as Hlen. cbn [length] in Hlen.
-        destruct (IH (m :: stack) body ND' INC') as [evs Hevs]; [cbn [length]; lia|].
-        rewrite Hevs. cbn. eauto.
+  assert (Hitem : forall k it, isz it <= k -> exists e, goi f g stack it = OK e).
+  { induction k as [|k IHk]; intros it Hk; [destruct it; cbn in Hk; lia|].
+    destruct it as [t|m|b].
+    - cbn. eauto.
+    - cbn. destruct (g m) eqn:Gm; [eauto | destruct (memn m stack); eauto |].
+      destruct (memn m stack) eqn:Mm; [eauto|].
+      apply memn_false in Mm.
+      assert (Hin : In m mods) by (apply mods_complete; congruence).
+      assert (ND' : NoDup (m :: stack)) by (constructor; assumption).
+      assert (INC' : incl (m :: stack) mods) by (intros x [->|Hx]; auto).
+      pose proof (NoDup_incl_length ND' INC') as Hlen. cbn [length] in Hlen.
+      apply IH; [exact ND' | exact INC' | cbn [length]; lia].
+    - rewrite goi_Blk. apply seq_ok. intros x Hx. apply IHk.
+      rewrite isz_Blk in Hk. pose proof (isz_in x b Hx). lia. }
+  apply seq_ok. intros x _. apply (Hitem (isz x)). lia.
 Qed.
 
 Theorem include_total_ok :
@@ -87,58 +136,47 @@ Lemma resolve_fuel_mono :
 Proof.
   induction fuel as [|f IH]; intros stack items evs H fuel' LE; [discriminate|].
   destruct fuel' as [|f']; [lia|]. assert (LE' : f <= f') by lia.
-  rewrite resolve_S in *. revert evs H.
-  induction items as [|it r IHr]; intros evs H; cbn [go_items] in *.
-  - exact H.
-  - fold (go_items f g stack) in H. fold (go_items f' g stack).
-    destruct it as [t|m].
-    + apply bind_ok in H. destruct H as [rest [Hr Hk]]. rewrite (IHr _ Hr). exact Hk.
-    + apply bind_ok in H. destruct H as [here [Hh Hk]].
-      apply bind_ok in Hk. destruct Hk as [rest [Hr Hk]]. rewrite (IHr _ Hr).
-      destruct (g m).
-      * rewrite Hh. cbn. exact Hk.
-      * rewrite Hh. cbn. exact Hk.
-      * destruct (memn m stack).
-        -- rewrite Hh. cbn. exact Hk.
-        -- rewrite (IH _ _ _ Hh f' LE'). cbn. exact Hk.
+  rewrite resolve_S in *.
+  assert (Hitem : forall k it e, isz it <= k -> goi f g stack it = OK e -> goi f' g stack it = OK e).
+  { induction k as [|k IHk]; intros it e Hk He; [destruct it; cbn in Hk; lia|].
+    destruct it as [t|m|b].
+    - exact He.
+    - cbn in *. destruct (g m); [exact He | exact He |].
+      destruct (memn m stack); [exact He|]. apply (IH _ _ _ He f' LE').
+    - rewrite goi_Blk in *. eapply seq_mono; [|exact He].
+      intros x e' Hx. apply IHk. rewrite isz_Blk in Hk. pose proof (isz_in x b Hx). lia. }
+  eapply seq_mono; [|exact H]. intros x e _. apply (Hitem (isz x)). lia.
 Qed.
 
-(* a cycle ends in an error: an include of a module that is being expanded is reported *)
-Lemma go_reports_cycle :
-  forall f stack items m evs,
-    In (Inc m) items -> In m stack -> g m <> Missing ->
-    go_items f g stack items = OK evs -> In (ECycle m) evs.
+(* a cycle ends in an error: an include (at any nesting depth) of a module that is being expanded is reported *)
+Lemma goi_reports_cycle :
+  forall f stack m, In m stack -> g m <> Missing ->
+  forall k it e, isz it <= k -> occ m it = true -> goi f g stack it = OK e -> In (ECycle m) e.
 Proof.
-  intros f stack items m evs. revert evs.
-  induction items as [|it r IHr]; intros evs HIn Hst Hg H; [destruct HIn|].
-  cbn [go_items] in H. fold (go_items f g stack) in H.
-  destruct it as [t|m'].
-  - destruct HIn as [E|HIn]; [discriminate|].
-    apply bind_ok in H. destruct H as [rest [Hr Hk]]. inversion Hk; subst.
-    right. eapply IHr; eauto.
-  - apply bind_ok in H. destruct H as [here [Hh Hk]].
-    apply bind_ok in Hk. destruct Hk as [rest [Hr Hk]]. inversion Hk; subst. clear Hk.
-    apply in_or_app.
-    destruct HIn as [E|HIn].
-    + inversion E; subst. left.
-      apply memn_In in Hst.
-      destruct (g m); [congruence| |]; rewrite Hst in Hh; inversion Hh; left; reflexivity.
-    + right. eapply IHr; eauto.
+  intros f stack m Hst Hg. induction k as [|k IHk]; intros it e Hk Ho He; [destruct it; cbn in Hk; lia|].
+  destruct it as [t|m'|b]; cbn in Ho.
+  - discriminate.
+  - apply Nat.eqb_eq in Ho. subst m'. cbn in He. apply memn_In in Hst.
+    destruct (g m); [congruence| |]; rewrite Hst in He; inversion He; left; reflexivity.
+  - rewrite goi_Blk in He. apply existsb_exists in Ho. destruct Ho as [x [Hx Hox]].
+    destruct (seq_in _ _ _ _ He Hx) as [e' [He' Hi]]. apply Hi.
+    apply (IHk x e'); auto. rewrite isz_Blk in Hk. pose proof (isz_in x b Hx). lia.
 Qed.
 
 Theorem include_cycle_reported :
   forall fuel m body evs,
-    g m = Loaded body -> In (Inc m) body ->
+    g m = Loaded body -> existsb (occ m) body = true ->
     resolve fuel g [] [Inc m] = OK evs -> In (ECycle m) evs.
 Proof.
-  intros fuel m body evs Gm HIn H.
+  intros fuel m body evs Gm Ho H.
   destruct fuel as [|f]; [discriminate|].
-  rewrite resolve_S in H. cbn [go_items] in H. rewrite Gm in H. cbn [memn existsb] in H.
-  apply bind_ok in H. destruct H as [here [Hh Hk]]. cbn in Hk. inversion Hk; subst. clear Hk.
-  rewrite app_nil_r.
-  destruct f as [|f']; [discriminate|].
-  rewrite resolve_S in Hh.
-  eapply go_reports_cycle; eauto; [left; reflexivity | congruence].
+  rewrite resolve_S in H. cbn in H. rewrite Gm in H.
+  destruct (resolve f g [m] body) as [e| | |] eqn:R; cbn in H; try discriminate.
+  inversion H; subst. rewrite app_nil_r.
+  destruct f as [|f']; [discriminate|]. rewrite resolve_S in R.
+  apply existsb_exists in Ho. destruct Ho as [x [Hx Hox]].
+  destruct (seq_in _ _ _ _ R Hx) as [e' [He' Hi]]. apply Hi.
+  apply (goi_reports_cycle f' [m] m (or_introl eq_refl) ltac:(congruence) (isz x) x e'); auto.
 Qed.
 End Total.
 
@@ -172,4 +210,10 @@ Example include_example :
                 [Stmt 0; Inc 1; Inc 2]
   = OK [EStmt 0; EStmt 10; ECycle 1; EStmt 20; EMissing 9; ECycle 1;
         EStmt 10; ECycle 2; ECycle 1; EStmt 20; EMissing 9].
+Proof. vm_compute. reflexivity. Qed.
+
+(* s.vcl = `if (..) { include "s"; }` included from a subroutine body: the nested include is a cycle *)
+Example include_nested_example :
+  resolve_table [(1, Loaded [Stmt 10; Blk [Stmt 11; Blk [Inc 1]]])] [Blk [Inc 1]]
+  = OK [EStmt 10; EStmt 11; ECycle 1].
 Proof. vm_compute. reflexivity. Qed.
